@@ -107,7 +107,11 @@ def c06b(ctx, tu):
                 unl = [x[1] for x in sim.log if x[0] == "unlink"]
                 sends = [x[1] for x in sim.log if x[0] == "send"]
                 why = None
-                if prints != list(range(k)):
+                foreign = [x[1] for x in sim.log if x[0] == "retire_all"]
+                if foreign:
+                    why = "it retires expectation %s from EVERY sequence it is registered in; the destruction of one " \
+                          "sequence must take the pending expectations out of that sequence only" % foreign
+                elif prints != list(range(k)):
                     why = "it lists %s" % (prints,)
                 elif sorted(unl) != list(range(k)) or sim.alive:
                     why = "it unlinks %s and leaves %s linked" % (unl, sim.alive)
@@ -170,20 +174,18 @@ def c06c(ctx, tu):
                inst=fn.q, detail="" if ok else "retire_predecessors must visit every sequence of the expectation")
 
 
-def c05d5(ctx, tu):
-    """an out-of-order step is reported once per violated sequence: the handler's validate() hands the question to the
-    handle of EVERY sequence the expectation names (each handle decides for its own sequence whether it is first in
-    line) - whatever the handle's cost, and without stopping after the first"""
+def every_handle(ctx, tu, rule, outer, inner, what):
+    """The handler forwards a question / a step to the handle of EVERY sequence the expectation names - whatever the
+    handle's cost, and without stopping after the first (one iteration of the walk, interpreted for every cost)."""
     from rules.common import LoopModel, iter_calls
-    VM = "trompeloeil::sequence_matcher::validate_match"
-    for fn in tu.find("trompeloeil::sequence_matchers::validate"):
+    for fn in tu.find(outer):
         if fn.rec["clsq"].endswith("<0>"):
             continue
-        l = loop_of(fn, VM)
-        if l is not None and not any(e["e"] == "call" and qe(e) == VM for b, e in fn.events()):
+        l = loop_of(fn, inner)
+        if l is not None and not any(e["e"] == "call" and qe(e) == inner for b, e in fn.events()):
             l = None          # some loop, but the handles are asked elsewhere (a visitor, a helper): not modelled
         if l is None:
-            ctx.ob("C05.d.5", "trompeloeil::sequence_matchers::validate", None, pattern=fn.pat, unit=tu.name, inst=fn.q,
+            ctx.ob(rule, outer, None, pattern=fn.pat, unit=tu.name, inst=fn.q,
                    detail="the walk over the expectation's sequences is not a loop this rule recognises")
             continue
         try:
@@ -195,20 +197,29 @@ def c05d5(ctx, tu):
                 def vm(t, it, seen=seen):
                     seen.append(1)
                     return None
-                o = Oracle(calls=iter_calls("elem", {VM: vm, "trompeloeil::sequence_matcher::cost": cost}),
+                o = Oracle(calls=iter_calls("elem", {inner: vm, "trompeloeil::sequence_matcher::cost": cost}),
                            any_member=True, any_param=True, any_call=True)
                 res, it = lm.step(o, at="elem")
                 if (res != ("stop", lm.entry) or len(seen) != 1) and why is None:
-                    why = "for a sequence in which the expectation has cost %s the step %s and asks the handle %d time(s)" % (
+                    why = "for a sequence in which the expectation has cost %s the step %s and reaches the handle %d time(s)" % (
                         "all-ones" if cost > 2 else cost, "goes on" if res[0] == "stop" else "ends the walk (%s)" % res[0], len(seen))
             if why is None and l["exit_edges"]:
-                why = "the walk can be left before every sequence was asked"
-            ctx.ob("C05.d.5", "trompeloeil::sequence_matchers::validate", why is None, pattern=fn.pat, unit=tu.name, inst=fn.q,
-                   detail="" if why is None else "every named sequence must be validated (one report per violated "
-                   "sequence): " + why)
+                why = "the walk can be left before every sequence was visited"
+            ctx.ob(rule, outer, why is None, pattern=fn.pat, unit=tu.name, inst=fn.q,
+                   detail="" if why is None else what + ": " + why)
         except Unknown as u:
-            ctx.ob("C05.d.5", "trompeloeil::sequence_matchers::validate", None, pattern=fn.pat, unit=tu.name, inst=fn.q,
-                   detail="cannot interpret: %s" % u)
+            ctx.ob(rule, outer, None, pattern=fn.pat, unit=tu.name, inst=fn.q, detail="cannot interpret: %s" % u)
+
+
+def c05d5(ctx, tu):
+    """an out-of-order step is reported once per violated sequence; a step that happened retires what was registered
+    before it in EVERY sequence it names"""
+    every_handle(ctx, tu, "C05.d.5", "trompeloeil::sequence_matchers::validate",
+                 "trompeloeil::sequence_matcher::validate_match",
+                 "every named sequence must be validated (one report per violated sequence)")
+    every_handle(ctx, tu, "C05.d.6", "trompeloeil::sequence_matchers::retire_predecessors",
+                 "trompeloeil::sequence_matcher::retire_predecessors",
+                 "once a step has matched, nothing registered before it in ANY of its sequences can match again")
 
 
 def run(ctx):
